@@ -395,6 +395,15 @@ func (ex *Exec) valEq(a, b Val, t types.Type) *Term {
 		if y, ok := b.(RefPtr); ok && y.Ref.IsLit() && y.Ref.Lit.Sign() == 0 {
 			return ts.False()
 		}
+		if gx, isG := a.(GlobalPtr); isG {
+			switch y := b.(type) {
+			case GlobalPtr:
+				return ts.Bool(gx.Name == y.Name)
+			case RefPtr:
+				// the address of a package-level variable is not the address of a heap object
+				return ts.False()
+			}
+		}
 	case IfaceV:
 		y, ok := b.(IfaceV)
 		if !ok {
